@@ -175,7 +175,7 @@ void ringT(Case& c, bool mid, bool constReverse, unsigned nops) {
       c.count("const_reverse_traversals");
     }
 #endif
-    c.lastOp = "destructor";
+    c.phase("destructor");
   }
   c.lifetimesOk(tracked ? 0 : -1);
 }
@@ -266,28 +266,28 @@ void bagT(Case& c, unsigned nops) {
         if constexpr (Conc) {
           T tmp(v);
           if (rng.below(2)) {
-            c.op("push_front", v);
+            c.op("push_front", v, NOARG, "push");
             p = b.push_front(tmp);
           } else {
-            c.op("push_back", v);
+            c.op("push_back", v, NOARG, "push");
             p = b.push_back(tmp);
           }
         } else {
           switch (rng.below(4)) {
           case 0:
-            c.op("push_front", v);
+            c.op("push_front", v, NOARG, "push");
             p = b.push_front(T(v));
             break;
           case 1:
-            c.op("push_back", v);
+            c.op("push_back", v, NOARG, "push");
             p = b.push_back(T(v));
             break;
           case 2:
-            c.op("emplace_front", v);
+            c.op("emplace_front", v, NOARG, "push");
             p = b.emplace_front(v);
             break;
           default:
-            c.op("emplace_back", v);
+            c.op("emplace_back", v, NOARG, "push");
             p = b.emplace_back(v);
             break;
           }
@@ -304,7 +304,7 @@ void bagT(Case& c, unsigned nops) {
         if (useExtract) {
           if constexpr (!Conc) {
             bool fr = rng.below(2);
-            c.op(fr ? "extract_front" : "extract_back");
+            c.op(fr ? "extract_front" : "extract_back", NOARG, NOARG, "extract");
             galois::optional<T> o = fr ? b.extract_front() : b.extract_back();
             c.eq("result-has-value", (bool)o.is_initialized(), !m.empty());
             if (!c.bad && !m.empty())
@@ -312,7 +312,7 @@ void bagT(Case& c, unsigned nops) {
           }
         } else {
           bool fr = rng.below(2);
-          c.op(fr ? "pop_front" : "pop_back");
+          c.op(fr ? "pop_front" : "pop_back", NOARG, NOARG, "pop");
           bool popped = fr ? b.pop_front() : b.pop_back();
           c.eq("result-popped", popped, !m.empty());
         }
@@ -324,7 +324,7 @@ void bagT(Case& c, unsigned nops) {
       }
       checkBagState(c, b, m, CS, tracked);
     }
-    c.lastOp = "destructor";
+    c.phase("destructor");
   }
   c.lifetimesOk(tracked ? 0 : -1);
 }
